@@ -34,6 +34,7 @@ import (
 	"math/big"
 	"os"
 	"path/filepath"
+	"runtime/debug"
 	"sort"
 	"strings"
 	"sync"
@@ -198,6 +199,10 @@ func netGuarded(f func()) (panicked string) {
 			panicked = fmt.Sprint(r)
 			if panicked == "" {
 				panicked = "panic"
+			}
+			if os.Getenv("NET_DEBUG") != "" {
+				fmt.Println(panicked)
+				fmt.Println(string(debug.Stack()))
 			}
 		}
 	}()
@@ -395,6 +400,11 @@ func (b *netBlockOps) CreateProposalBlock(height uint64, state cstate.LatestBloc
 	ps := blk.MakePartSet(types.BlockPartSizeBytes)
 	b.node.sim.height(height, &state)
 	b.node.sim.noteBlock(blk, ps, true)
+	// diagnostic only: is the node's own proposal a valid block? (fresh executor: no cache)
+	if err := cstate.NewBlockExecutor(b.node.store, log.New(), netEv{}, b).ValidateBlock(state, blk); err != nil {
+		b.node.sim.o.Count("own-proposal-invalid")
+		b.node.sim.ownInvalid = fmt.Sprintf("node %d h=%d: %v", b.node.id, height, err)
+	}
 	return blk, ps
 }
 
@@ -570,6 +580,9 @@ type netSim struct {
 	byzTime bool               // Byzantine validators use adversarial timestamps
 	mirror  bool               // Byzantine validators echo every correct vote back to its signer
 	deferOwn bool              // own messages are sometimes processed late
+	ownInvalid string          // last validation error of a correct node's own proposal block (diagnostic)
+	scenario string            // "" = random run, else the name of a scripted prefix
+	hold     func(m *netMsg, to int) bool // scripted prefixes: messages held back by the network
 	byzQuiet bool              // Byzantine validators withhold everything during the synchronous phases
 	step    int
 	failed  map[string]bool
@@ -586,6 +599,9 @@ func (s *netSim) fail(class, detail string) {
 		return
 	}
 	s.failed[class] = true
+	if s.scenario != "" {
+		detail = s.scenario + ": " + detail
+	}
 	s.o.Fail(s.step, class, detail)
 }
 
@@ -792,6 +808,10 @@ func netWriteGenesisBlock(db kaidb.Database) {
 
 func (s *netSim) newCfg() *configs.ConsensusConfig {
 	cfg := configs.TestConsensusConfig()
+	if s.scenario != "" {
+		s.lastCfg = cfg
+		return cfg
+	}
 	if s.r.Chance(1, 3) {
 		cfg.CreateEmptyBlocksInterval = 35 * time.Millisecond
 	}
@@ -819,9 +839,25 @@ func (s *netSim) correct() []*netNode {
 
 // ---- running inputs on a node
 
+var netTrace = func() int {
+	v := -1
+	fmt.Sscan(os.Getenv("NET_TRACE"), &v)
+	return v
+}()
+
 func (s *netSim) guard(nd *netNode, what string, f func()) {
 	if nd.dead != "" {
 		return
+	}
+	var before string
+	if netTrace >= 0 && nd.id == netTrace {
+		before = fmt.Sprintf("h=%d r=%d s=%d locked@%d valid@%d", nd.cs.Height, nd.cs.Round, nd.cs.Step, nd.cs.LockedRound, nd.cs.ValidRound)
+		defer func() {
+			after := fmt.Sprintf("h=%d r=%d s=%d locked@%d valid@%d", nd.cs.Height, nd.cs.Round, nd.cs.Step, nd.cs.LockedRound, nd.cs.ValidRound)
+			if after != before {
+				fmt.Printf("TRACE step=%d node%d %s: %s -> %s\n", s.step, nd.id, what, before, after)
+			}
+		}()
 	}
 	if p := netGuarded(f); p != "" {
 		nd.dead = p
@@ -942,7 +978,23 @@ func (s *netSim) deliver(nd *netNode, m *netMsg, peer string) {
 			nd.seenAt[m.id] = nd.majEpoch
 		}
 	}
-	s.guard(nd, "peer message", func() { nd.cs.handleMsg(msgInfo{Msg: msg, PeerID: p2p.ID(peer)}) })
+	what := "peer message"
+	if netTrace >= 0 {
+		switch m.kind {
+		case 'V':
+			what = fmt.Sprintf("vote from=%d type=%d h=%d r=%d bid=%d", m.from, m.vote.Type, m.h, m.vote.Round, func() int {
+				if ht := s.hs[m.h]; ht != nil {
+					return ht.bid(m.vote.BlockID)
+				}
+				return -1
+			}())
+		case 'P':
+			what = fmt.Sprintf("proposal from=%d h=%d r=%d pol=%d", m.from, m.h, m.prop.Round, m.prop.POLRound)
+		case 'B':
+			what = fmt.Sprintf("part from=%d h=%d r=%d idx=%d", m.from, m.h, m.round, m.part.Index)
+		}
+	}
+	s.guard(nd, what, func() { nd.cs.handleMsg(msgInfo{Msg: msg, PeerID: p2p.ID(peer)}) })
 	s.settle(nd)
 }
 
@@ -1234,6 +1286,9 @@ func (s *netSim) byzAct(now bool) {
 				bid = ht.bidList[s.r.Intn(len(ht.bidList))]
 			}
 		case 2:
+			if _, in := ht.idxOf[tgt.id]; !in {
+				break
+			}
 			if vs := tgt.cs.Votes.Prevotes(round); vs != nil {
 				if own := vs.GetByAddress(tgt.key.GetAddress()); own != nil {
 					bid = own.BlockID
@@ -1312,7 +1367,7 @@ func (s *netSim) connected(a, b int) bool {
 // by that and use their own catch-up allowance in HeightVoteSet).
 func (s *netSim) deliverable(f *netFlight) bool {
 	nd := s.nodes[f.to]
-	if nd.dead != "" || !s.connected(f.from, f.to) {
+	if nd.dead != "" || !s.connected(f.from, f.to) || (s.hold != nil && s.hold(f.m, f.to)) {
 		return false
 	}
 	if f.m.kind == 'V' && !s.byz[f.from] && f.m.h == nd.cs.Height && nd.cs.Votes.Prevotes(f.m.vote.Round) == nil {
@@ -1751,6 +1806,9 @@ func (s *netSim) dump() string {
 			}
 		}
 	}
+	if s.ownInvalid != "" {
+		l = append(l, "last invalid own proposal: "+s.ownInvalid)
+	}
 	return strings.Join(l, "; ")
 }
 
@@ -2124,6 +2182,91 @@ func (s *netSim) blockSync() {
 }
 
 // ---------------------------------------------------------------------------------------------
+// scripted adversarial prefixes
+
+// flush delivers every message in flight that the network does not hold back, to a fixpoint.
+func (s *netSim) flush() {
+	for progress := true; progress; {
+		progress = false
+		for i := 0; i < len(s.flights); {
+			if s.deliverable(s.flights[i]) {
+				// in order: move the flight to the end, where deliverFlight removes it without reordering
+				f := s.flights[i]
+				copy(s.flights[i:], s.flights[i+1:])
+				s.flights[len(s.flights)-1] = f
+				s.deliverFlight(len(s.flights)-1, true)
+				progress = true
+			} else {
+				i++
+			}
+		}
+	}
+}
+
+// bftTimeScenario: four validators of equal power, one Byzantine.  Height 1 is decided in round 1;
+// the Byzantine validator's precommit carries a timestamp before the genesis time; the network
+// delays the correct precommits so that every correct node commits on exactly three precommits
+// (its own, one other correct one, the Byzantine one) and leaves the NewHeight step of height 2
+// before the remaining precommit arrives.  From then on the network is synchronous.
+func (s *netSim) bftTimeScenario() bool {
+	cor := s.correct()
+	if len(cor) != 3 {
+		return false
+	}
+	isPC := func(m *netMsg) bool { return m.kind == 'V' && m.h == 1 && m.vote.Type == kproto.PrecommitType }
+	for _, nd := range cor {
+		if nd.ticker.fire() {
+			s.handleTock(nd, 0)
+		}
+	}
+	s.hold = func(m *netMsg, to int) bool { return isPC(m) }
+	s.flush()
+	var bid types.BlockID
+	for _, nd := range cor {
+		vs := nd.cs.Votes.Precommits(1)
+		var own *types.Vote
+		if vs != nil {
+			own = vs.GetByAddress(nd.key.GetAddress())
+		}
+		if own == nil || own.BlockID.IsZero() {
+			s.o.Count("scenario:bft-time:prefix-not-reached")
+			return false
+		}
+		bid = own.BlockID
+	}
+	ht := s.hs[1]
+	b := s.byzIDs(ht)[0]
+	v := &types.Vote{ValidatorAddress: s.keys[b].GetAddress(), ValidatorIndex: uint32(ht.idxOf[b]), Height: 1, Round: 1,
+		Timestamp: netGenesisTime.Add(-time.Hour), Type: kproto.PrecommitType, BlockID: bid}
+	pv := v.ToProto()
+	s.logSig(b, kproto.PrecommitType, 1, 1, bid)
+	if err := s.keys[b].SignVote(netChainID, pv); err != nil {
+		panic(err)
+	}
+	v.Signature = pv.Signature
+	for _, nd := range cor {
+		s.deliver(nd, s.archiveMsg(&netMsg{h: 1, kind: 'V', vote: v, from: b}), fmt.Sprintf("byz%d", b))
+	}
+	allowed := map[[2]int]bool{{cor[1].id, cor[0].id}: true, {cor[0].id, cor[1].id}: true, {cor[0].id, cor[2].id}: true}
+	s.hold = func(m *netMsg, to int) bool { return isPC(m) && !allowed[[2]int{m.from, to}] }
+	s.flush()
+	for _, nd := range cor {
+		if nd.cs.Height != 2 || nd.cs.Step != cstypes.RoundStepNewHeight {
+			s.o.Count("scenario:bft-time:prefix-not-reached")
+			return false
+		}
+	}
+	for _, nd := range cor {
+		if nd.ticker.fire() {
+			s.handleTock(nd, len(nd.ticker.tocks)-1)
+		}
+	}
+	s.hold = nil
+	s.o.Mark("scenario-bft-time-prefix-reached")
+	return true
+}
+
+// ---------------------------------------------------------------------------------------------
 // one run
 
 func netByzOK(pw []int64, byz []bool) bool {
@@ -2141,13 +2284,23 @@ func netRun(o *netOut, r *netRand, idx int, mode string) {
 	s := &netSim{o: o, r: r, mode: mode, tag: fmt.Sprint(idx % 5), hs: map[uint64]*netHeight{}, idOf: map[common.Address]int{},
 		plan: map[uint64][]int64{}, failed: map[string]bool{}}
 	n := 4 + r.Intn(4)
+	if mode == "C04" && idx%10 == 9 {
+		s.scenario = "bft-time"
+		n = 4
+	}
 	s.n = n
 	pw := make([]int64, n)
 	dist := []string{"equal", "random", "skewed", "one-third-edge"}[r.Pick(3, 4, 2, 2)]
+	if s.scenario != "" {
+		dist = "equal"
+	}
 	for k := range pw {
 		switch dist {
 		case "equal":
 			pw[k] = 10
+			if s.scenario != "" {
+				pw[k] = 1
+			}
 		case "random":
 			pw[k] = int64(1 + r.Intn(12))
 		case "skewed":
@@ -2193,7 +2346,7 @@ func netRun(o *netOut, r *netRand, idx int, mode string) {
 	}
 	// validator-set changes decided by the application (effective two heights later)
 	s.curPow = append([]int64{}, pw...)
-	if r.Chance(1, 2) {
+	if r.Chance(1, 2) && s.scenario == "" {
 		for _, bh := range []uint64{1, 2} {
 			if !r.Chance(2, 3) {
 				continue
@@ -2222,6 +2375,19 @@ func netRun(o *netOut, r *netRand, idx int, mode string) {
 		vals = append(vals, types.NewValidator(s.keys[i].GetAddress(), pw[i]))
 	}
 	useDoc := r.Chance(1, 2)
+	if s.scenario != "" {
+		// exactly one Byzantine validator, not the proposer of the first round
+		prop := types.NewValidatorSet(vals).GetProposer().Address
+		for k := range s.byz {
+			s.byz[k] = false
+		}
+		for k := range s.byz {
+			if !s.keys[k].GetAddress().Equal(prop) {
+				s.byz[k] = true
+				break
+			}
+		}
+	}
 	if useDoc {
 		doc := &genesis.Genesis{ChainID: netChainID, InitialHeight: 1, Timestamp: netGenesisTime, ConsensusParams: configs.DefaultConsensusParams()}
 		for i := 0; i < n; i++ {
@@ -2246,11 +2412,14 @@ func netRun(o *netOut, r *netRand, idx int, mode string) {
 	s.mirror = r.Chance(1, 4)
 	s.deferOwn = r.Chance(1, 3)
 	s.byzQuiet = r.Chance(2, 5)
+	if s.scenario != "" {
+		s.byzTime, s.mirror, s.deferOwn, s.byzQuiet = false, false, false, true
+	}
 	nb := 0
 	for _, b := range s.byz {
 		nb += netB(b)
 	}
-	o.Case(idx, fmt.Sprintf("CASE %d mode=%s n=%d byz=%d powers=%s doc=%d byztime=%d mirror=%d quiet=%d", idx, mode, n, nb, dist, netB(useDoc), netB(s.byzTime), netB(s.mirror), netB(s.byzQuiet)))
+	o.Case(idx, fmt.Sprintf("CASE %d mode=%s n=%d byz=%d powers=%s doc=%d byztime=%d mirror=%d quiet=%d scenario=%s", idx, mode, n, nb, dist, netB(useDoc), netB(s.byzTime), netB(s.mirror), netB(s.byzQuiet), map[bool]string{true: "-", false: s.scenario}[s.scenario == ""]))
 	o.Count(fmt.Sprintf("n:%d", n))
 	o.Count(fmt.Sprintf("byz:%d", nb))
 	o.Count("powers:" + dist)
@@ -2266,7 +2435,11 @@ func netRun(o *netOut, r *netRand, idx int, mode string) {
 		s.nodes = append(s.nodes, nd)
 	}
 	ok := true
-	for T := uint64(1); T <= uint64(s.heights) && ok; T++ {
+	if s.scenario == "bft-time" {
+		ok = s.bftTimeScenario() && s.synchronous(2)
+		o.Count("scenario:bft-time")
+	}
+	for T := uint64(1); T <= uint64(s.heights) && ok && s.scenario == ""; T++ {
 		budget := 0
 		switch r.Pick(2, 4, 4) {
 		case 1:
